@@ -242,7 +242,7 @@ class document_c:
     """C15 (whole-input exclusion, pruning), C13 (pages and index files of one walk step, recursion cut-off, auto-exclusion),
     C14 (index content), C18 (every write below the output directory / stdout only), C12 (default prefix), C06 (missing
     input).  Per walk step facts are `step` clauses of loop 0; how the steps compose is os.walk's (trusted) contract."""
-    props = ["C13", "C14", "C15", "C17", "C18", "C12", "C06"]
+    props = ["C13", "C14", "C15", "C17", "C18"]
     types = {"input_file": "str", "settings": "ref:Settings", "output_path": "opt[str]", "prefix": "opt[str]",
              "recursive": "bool", "input_path": "str", "root": "str", "subdirs": "list[str]",
              "filenames": "list[str]", "rel_path": "str", "path": "str", "last_dir_element": "str",
